@@ -185,7 +185,8 @@ def _wrap_lon(x):
 @st.composite
 def pairs(draw):
     kind = draw(st.sampled_from(["independent", "independent", "independent", "near", "near", "meridian", "parallel",
-                                 "equatorial", "polar", "dateline", "coincident", "over-pole", "near-antipodal", "near-antipodal"]))
+                                 "equatorial", "polar", "dateline", "coincident", "over-pole", "near-antipodal", "near-antipodal",
+                                 "very-near"]))
     lat1, lon1 = draw(lat_s), draw(lon_s)
     if kind == "independent":
         lat2, lon2 = draw(lat_s), draw(lon_s)
@@ -195,6 +196,12 @@ def pairs(draw):
         lat2 = _clamp_lat(lat1 + sep * math.cos(brg))
         c = max(math.cos(math.radians(lat1)), 1e-3)
         lon2 = _wrap_lon(lon1 + sep * math.sin(brg) / c)
+    elif kind == "very-near":
+        # 0.1 mm .. 10 cm apart: where "are the two points the same?" is decided, at any coordinate magnitude
+        sep = draw(S.log_uniform(1e-9, 1e-6))
+        brg = draw(S.floats(0.0, 2 * math.pi))
+        lat2 = _clamp_lat(lat1 + sep * math.cos(brg))
+        lon2 = _wrap_lon(lon1 + sep * math.sin(brg) / max(math.cos(math.radians(lat1)), 1e-3))
     elif kind == "meridian":
         lat2, lon2 = draw(lat_s), lon1
     elif kind == "parallel":
@@ -275,6 +282,24 @@ def _sweep_lines(rnd):
     return out
 
 
+def _near_fill(u):
+    """Short and medium lines: first point uniform, bearing uniform, separation log-uniform 1e-9 .. 10 deg (0.1 mm .. 1 100 km)."""
+    lat1, lon1 = -89.0 + 178.0 * u[0], -180.0 + 360.0 * u[1]
+    sep = 10.0 ** (-9.0 + 10.0 * u[2])
+    brg = 2 * math.pi * u[3]
+    lat2 = _clamp_lat(lat1 + sep * math.cos(brg))
+    lon2 = _wrap_lon(lon1 + sep * math.sin(brg) / max(math.cos(math.radians(lat1)), 1e-3))
+    return {"lat1": lat1, "lon1": lon1, "lat2": lat2, "lon2": lon2, "ell": S.u_ellipsoid(u[4], u[5], 280.0, 320.0), "pair": "near-fill",
+            "defaults": False, "num": "float"}
+
+
+def _near_shift_fill(u):
+    c = _near_fill(u)
+    k, r = S.u_pick(u[5], [360.0, -360.0, 180.0, -180.0, None, None])
+    c["shift"] = k if k is not None else -360.0 + 720.0 * r
+    return c
+
+
 def _fill_build(u):
     return {"lat1": -90.0 + 180.0 * u[0], "lon1": -180.0 + 360.0 * u[1], "lat2": -90.0 + 180.0 * u[2], "lon2": -180.0 + 360.0 * u[3],
             "ell": S.u_ellipsoid(u[4], u[5], 280.0, 320.0), "pair": "fill", "defaults": False, "num": "float"}
@@ -300,6 +325,12 @@ SUBCHECKS = [
     SubCheck("quasi_random_fill", check_arrival, enumerate=S.fill(515, 6, _fill_build, 40000, 800000), nontrivial=_nt, classes=_classes,
              shards_quick=12, shards_thorough=16,
              rule="low-discrepancy fill of both points (latitude, longitude uniform) x ellipsoid: 40 000 / 800 000 pairs (beyond 178 deg discarded)"),
+    SubCheck("near_fill", check_arrival, enumerate=S.fill(517, 6, _near_fill, 30000, 600000), nontrivial=_nt, classes=_classes,
+             shards_quick=12, shards_thorough=16,
+             rule="low-discrepancy fill of first point x bearing x separation (log-uniform 0.1 mm .. 1 100 km) x ellipsoid: 30 000 / 600 000 pairs"),
+    SubCheck("near_shift_fill", check_shift, enumerate=S.fill(518, 6, _near_shift_fill, 20000, 400000), nontrivial=_nt, classes=_classes,
+             shards_quick=8, shards_thorough=16,
+             rule="the same kind of fill through the common-longitude-offset relation (+-360, +-180, uniform offsets)"),
     SubCheck("swap_fill", check_swap, enumerate=S.fill(516, 6, _fill_build, 20000, 400000), nontrivial=_nt, classes=_classes,
              shards_quick=8, shards_thorough=16, rule="the same fill (another seeded point set) through the swap symmetry"),
 ]
